@@ -70,7 +70,7 @@ var f64Specials = []uint64{
 
 func genBytes(r *rng.R, n int) []byte {
 	b := make([]byte, n)
-	mode := r.Intn(5)
+	mode := r.Intn(7)
 	for i := range b {
 		switch mode {
 		case 0:
@@ -79,6 +79,11 @@ func genBytes(r *rng.R, n int) []byte {
 			b[i] = 0x80
 		case 2:
 			b[i] = 0
+		case 3, 4: // tiny numbers: plausible length fields wherever a read starts
+			b[i] = byte(r.Intn(4))
+			if r.Chance(3, 4) {
+				b[i] = 0
+			}
 		default:
 			b[i] = byte(r.U64())
 		}
@@ -494,7 +499,7 @@ func spec() corr.Spec {
 			case "thorough":
 				return 200000
 			}
-			return 300000 // search
+			return 250000 // search
 		},
 		Gen: func(r *rng.R, tier string, i int) corr.Case {
 			switch i % 10 {
